@@ -19,7 +19,9 @@ for pid in props:
     p = P[pid]
     text = f"""You are given a scratch git worktree of the Python library Jelly-RDF/pyjelly at {wt}
 (a pure-Python encoder/decoder for Jelly, a protobuf-based streaming RDF serialization format). Work ONLY inside
-that directory. Do not read or touch /repo or anything under /verif. Never commit anything.
+that directory. Do not read or touch /repo or anything under /verif. Never commit anything, and never use
+`git stash` (the stash is shared by all worktrees of the repository, other agents work in sibling worktrees): to go
+back to the clean tree use `git checkout -- .`, to re-apply your change use `git apply out/k/patch.diff`.
 
 Python: /venv/bin/python. The project's test suite: `cd {wt} && /venv/bin/python -m pytest -q -p no:cacheprovider`
 (currently: 487 passed, 145 skipped; it writes some temp .jelly files under tests/ — restore them afterwards with
